@@ -514,6 +514,9 @@ class ModelBase:
                 # zip(e[:-1], e[1:]): consecutive pairs of one sequence
                 if sh is not None and el is not None and (sh[0], sh[3]) in ((0, 1), (1, 0)):
                     el = el.w(pair_pos=sh[0], pair_src=sh[1], pair_seq=x.shifted_of)
+                if el is not None and x.ty == 'ndarray' and x.axes and x.axes[0] == 'frame' and x.shifted is None:
+                    # zip over the frame axis of several arrays: the k-th items belong to the same frame
+                    el = el.w(frame_idx=f'zip@{getattr(node, "lineno", 0)}')
                 elts.append(el)
             return AV(ty='tuple', elts=elts)
         if ty == 'dict':
